@@ -106,6 +106,11 @@ func c06Alternatives(allPerms bool) []func(*c06Case) {
 			alts = append(alts, func(c *c06Case) { c.Exps = e })
 		})
 	}
+	// 65534 = the highest exponent par2cmdline writes (65535 would repeat row 0; gopar rejects it with an error, judged in C19)
+	for _, e := range [][]int{{65534}, {5, 65534}, {0, 65533, 65534}} {
+		e := e
+		alts = append(alts, func(c *c06Case) { c.Exps = e })
+	}
 	for _, n := range []int{2, 3} {
 		n := n
 		alts = append(alts, func(c *c06Case) { c.NVol = n })
